@@ -14,6 +14,12 @@ Recognised shape (anything else raises, nothing is skipped):
         ranking.append((rank, upload))
     ranking.sort(key=itemgetter(0))
     return list(reversed([upload for _, upload in ranking]))
+
+When the source no longer has this shape (a refactoring: rank helper, `sorted(...)` + `.reverse()`, ...) the constants
+are extracted from the BEHAVIOUR of the real function instead (`extract_by_behaviour`): the real
+`TransferManager._prioritize_uploads` of the tree under check is called on constructed uploads for every
+status x friend x privileged class and every pair order, and weights are accepted only if the model's ranking (additive
+rank, stable ascending sort, reversed) orders every pair and a set of longer lists exactly as the real function does.
 """
 import ast
 from pathlib import Path
@@ -39,6 +45,141 @@ def _weight(body, what) -> int:
 
 
 def extract(repo: Path) -> dict:
+    """By shape if the source has the known shape, else by behaviour; raises when neither applies."""
+    try:
+        return extract_by_shape(repo)
+    except TranslateError as shape_error:
+        try:
+            out = extract_by_behaviour(repo)
+        except TranslateError as e:
+            raise TranslateError(f'{shape_error}; and: {e}')
+        except Exception as e:  # noqa: BLE001
+            raise TranslateError(f'{shape_error}; behavioural probe failed: {e!r}')
+        out['how'] = f'behaviour (shape not recognised: {shape_error})'
+        return out
+
+
+STATUSES = ['UNKNOWN', 'OFFLINE', 'AWAY', 'ONLINE']
+
+
+def _model_prioritize(rank, order: list) -> list:
+    """`Sched.prioritize`: stable ascending insertion sort on the rank, reversed"""
+    return list(reversed(sorted(order, key=rank)))        # sorted() is stable
+
+
+def extract_by_behaviour(repo: Path) -> dict:
+    import importlib
+    import inspect
+    import itertools
+    import random
+    src = repo / 'src/aioslsk/transfer/manager.py'
+    mod = importlib.import_module('aioslsk.transfer.manager')
+    if Path(inspect.getsourcefile(mod)).resolve() != src.resolve():
+        raise TranslateError(f'aioslsk.transfer.manager is imported from {mod.__file__}, not from {src}')
+    from aioslsk.events import EventBus
+    from aioslsk.settings import Settings
+    from aioslsk.transfer.model import Transfer, TransferDirection
+    from aioslsk.user.model import User, UserStatus
+    TM = getattr(mod, 'TransferManager', None)
+    if TM is None or not callable(getattr(TM, '_prioritize_uploads', None)):
+        raise TranslateError('TransferManager._prioritize_uploads not found')
+    if set(UserStatus.__members__) != set(STATUSES):
+        raise TranslateError(f'UserStatus members changed: {sorted(UserStatus.__members__)}')
+    classes = [(s, f, p) for s in STATUSES for f in (0, 1) for p in (0, 1)]
+    COPIES = 3
+
+    def name(c, j):
+        return f'{c[0]}-{c[1]}-{c[2]}-{j}'
+
+    class _Users:
+        """every call returns what the user manager would hold for that user"""
+        def get_user_object(self, username):
+            st, _f, pr, _j = username.split('-')
+            return User(name=username, status=UserStatus[st], privileged=pr == '1')
+
+    settings = Settings(credentials={'username': 'me', 'password': 'pw'})
+    settings.users.friends = {name(c, j) for c in classes if c[1] for j in range(COPIES)}
+    mgr = TM(settings, EventBus(), _Users(), None, None)
+
+    def real(order: list) -> list:
+        """order: list of (class, copy); returns the real function's output in the same terms"""
+        ups = [Transfer(name(c, j), f'file-{i}', TransferDirection.UPLOAD) for i, (c, j) in enumerate(order)]
+        res = mgr._prioritize_uploads(list(ups))
+        res = list(res)
+        if len(res) != len(ups) or {id(x) for x in res} != {id(x) for x in ups}:
+            raise TranslateError('_prioritize_uploads does not return a permutation of its input')
+        back = {id(u): o for u, o in zip(ups, order)}
+        return [back[id(x)] for x in res]
+
+    # 1. the real order on every pair of classes, both input orders
+    cmp: dict = {}
+    for a in classes:
+        for b in classes:
+            x, y = (a, 0), (b, 1)
+            r1, r2 = real([x, y]), real([y, x])
+            if r1 == [x, y] and r2 == [x, y]:
+                cmp[a, b] = 1
+            elif r1 == [y, x] and r2 == [y, x]:
+                cmp[a, b] = -1
+            elif r1 == [y, x] and r2 == [x, y]:
+                cmp[a, b] = 0           # a tie: the later one first (stable ascending sort, reversed)
+            else:
+                raise TranslateError(f'_prioritize_uploads orders equally ranked uploads {a} / {b} input-first: the model\'s '
+                                     f'"stable ascending sort, then reverse" does not describe it')
+    base = ('UNKNOWN', 0, 0)
+    earners = [s for s in STATUSES if cmp[(s, 0, 0), base] == 1]
+    if any(cmp[(s, 0, 0), base] == -1 for s in STATUSES):
+        raise TranslateError('a status ranks below UNKNOWN: not an additive non-negative status weight')
+    # 2. weights: integer literals of manager.py (those of functions that talk about ranks first), then a small grid
+    tree = ast.parse(src.read_text())
+
+    def ints(node):
+        return {n.value for n in ast.walk(node) if isinstance(n, ast.Constant) and type(n.value) is int and 0 < n.value <= 10**6}
+    near = set()
+    for fn in ast.walk(tree):
+        if isinstance(fn, (ast.FunctionDef, ast.AsyncFunctionDef)):
+            if 'rank' in fn.name or 'priorit' in fn.name or any(isinstance(n, ast.Name) and n.id == 'rank' for n in ast.walk(fn)):
+                near |= ints(fn)
+    pools = [sorted(near), sorted(ints(tree)), list(range(1, 13)) + [20, 50, 100, 200, 1000]]
+
+    def rank_of(w):
+        o, f, p = w
+        return lambda c: (o if c[0] in earners else 0) + (f if c[1] else 0) + (p if c[2] else 0)
+
+    def fits(w) -> bool:
+        r = rank_of(w)
+        return all((r(a) > r(b)) - (r(a) < r(b)) == v for (a, b), v in cmp.items())
+
+    found = None
+    for pool in pools:
+        for w in itertools.product(pool, repeat=3):
+            if fits(w):
+                found = w
+                break
+        if found:
+            break
+    if found is None:
+        raise TranslateError('the real order of the 16 user classes is not the order of any additive rank '
+                             '(status weight + friend weight + privileged weight) the model can express')
+    # 3. the whole function on longer lists (ties, duplicates, every class): model == real
+    r = rank_of(found)
+    rng = random.Random('sched-constants')
+    probes = [[(c, 0) for c in classes] + [(c, 1) for c in classes],
+              [(c, 1) for c in reversed(classes)] + [(c, 0) for c in classes]]
+    for _ in range(300):
+        n = rng.randint(3, 9)
+        cand = [(c, j) for c in classes for j in range(COPIES)]
+        probes.append(rng.sample(cand, n))
+    for order in probes + [[]] + [[(c, 0)] for c in classes[:2]]:
+        want = _model_prioritize(lambda e: r(e[0]), order)
+        got = real(order)
+        if got != want:
+            raise TranslateError(f'_prioritize_uploads differs from the model on {order}: real {got}, model {want}')
+    return {'online': found[0], 'friend': found[1], 'privileged': found[2], 'earners': earners,
+            'sorted_ascending': True, 'reversed': True}
+
+
+def extract_by_shape(repo: Path) -> dict:
     src = (repo / 'src/aioslsk/transfer/manager.py').read_text()
     tree = ast.parse(src)
     fn = None
@@ -117,9 +258,10 @@ def extract(repo: Path) -> dict:
 def generate(repo: Path, lean_dir: Path) -> str:
     c = extract(repo)
     earners = ', '.join(f'"{n}"' for n in c['earners'])
+    how = '' if 'how' not in c else ('-- extracted by ' + ' '.join(c['how'].split())[:400] + '\n')
     text = f'''-- GENERATED by translate/sched_constants.py from TransferManager._prioritize_uploads
 -- (/repo/src/aioslsk/transfer/manager.py) — do not edit.
-namespace AioslskVerif.Generated.Sched
+{how}namespace AioslskVerif.Generated.Sched
 def wOnline : Nat := {c['online']}
 def wFriend : Nat := {c['friend']}
 def wPrivileged : Nat := {c['privileged']}
